@@ -3,6 +3,7 @@ package sym
 import (
 	"fmt"
 	"go/types"
+	"os"
 
 	"golang.org/x/tools/go/ssa"
 )
@@ -262,11 +263,17 @@ func deepCopy(v Value, seen map[*Value]*Value) Value {
 
 func init() {
 	reg("("+modPathConst+"/internal/conf.Path).Clone", func(m *Machine, fr *frame, a []Value) Value {
+		if os.Getenv("SYMGO_STUBCLONE") == "" {
+			return notIntrinsic{} // the real deepClone is interpreted over the reflect model
+		}
 		c := new(Value)
 		*c = deepCopy(a[0], map[*Value]*Value{})
 		return c
 	})
 	reg("("+modPathConst+"/internal/conf.Conf).Clone", func(m *Machine, fr *frame, a []Value) Value {
+		if os.Getenv("SYMGO_STUBCLONE") == "" {
+			return notIntrinsic{}
+		}
 		c := new(Value)
 		*c = deepCopy(a[0], map[*Value]*Value{})
 		return c
@@ -281,7 +288,6 @@ func init() {
 		return cell
 	})
 }
-
 
 func init() {
 	// errordumper: a reporting goroutine that only logs; Stop would wait for it
